@@ -356,6 +356,23 @@ def gen_hist(ctx):
         add("resume-planted-all-done", [blob], [{"t": "plant", "blob": 0, "data": hx(blob), "parts": [{"N": 0, "Offset": 0, "Size": len(blob), "Completed": len(blob)}]},
                                                 pull_step("ns/m:t", [{"blob": 0}])], tail=1)
 
+        # what a crash can leave (Prepare resumes only if every record is readable and they add up to the -partial file)
+        q3 = len(blob) // 3
+        three = [{"N": 0, "Offset": 0, "Size": q3, "Completed": q3}, {"N": 1, "Offset": q3, "Size": q3, "Completed": rng.randint(0, q3)}, {"N": 2, "Offset": 2 * q3, "Size": len(blob) - 2 * q3, "Completed": 0}]
+        half = bytearray(len(blob))
+        half[:q3] = blob[:q3]
+        half[q3:q3 + three[1]["Completed"]] = blob[q3:q3 + three[1]["Completed"]]
+        add("resume-crash-record-missing", [blob], [{"t": "plant", "blob": 0, "data": hx(bytes(half)), "parts": [three[0], three[2]]}, pull_step("ns/m:t", [{"blob": 0}])], tail=1)
+        add("resume-crash-first-record-missing", [blob], [{"t": "plant", "blob": 0, "data": hx(bytes(half)), "parts": three[1:]}, pull_step("ns/m:t", [{"blob": 0}])], tail=1)
+        add("resume-crash-record-empty", [blob], [{"t": "plant", "blob": 0, "data": hx(bytes(half)), "parts": [three[0], {"N": 1, "raw": ""}, three[2]]}, pull_step("ns/m:t", [{"blob": 0}])], tail=1)
+        add("resume-crash-record-cut-off", [blob], [{"t": "plant", "blob": 0, "data": hx(bytes(half)), "parts": [three[0], three[1], {"N": 2, "raw": hx(b'{"N":2,"Offs')}]}, pull_step("ns/m:t", [{"blob": 0}])], tail=1)
+        add("resume-crash-partial-file-missing", [blob], [{"t": "plant", "blob": 0, "parts": three}, pull_step("ns/m:t", [{"blob": 0}])], tail=1)
+        add("resume-crash-partial-file-shorter", [blob], [{"t": "plant", "blob": 0, "data": hx(bytes(half[:q3])), "parts": three}, pull_step("ns/m:t", [{"blob": 0}])], tail=1)
+        add("resume-crash-partial-file-longer", [blob], [{"t": "plant", "blob": 0, "data": hx(bytes(half) + b"xx"), "parts": three}, pull_step("ns/m:t", [{"blob": 0}])], tail=1)
+        add("resume-crash-partial-file-only", [blob], [{"t": "plant", "blob": 0, "data": hx(bytes(half))}, pull_step("ns/m:t", [{"blob": 0}])], tail=1)
+        add("resume-crash-discard-then-head-fails", [blob], [{"t": "plant", "blob": 0, "data": hx(bytes(half) + b"x"), "parts": three}, pull_step("ns/m:t", [{"blob": 0}], None, {"head:0": [{"status": 500}]})], tail=1)
+        add("resume-consistent-three-parts", [blob], [{"t": "plant", "blob": 0, "data": hx(bytes(half)), "parts": three}, pull_step("ns/m:t", [{"blob": 0}])], tail=1)
+
         # --- I: a manifest that lies about a layer's size
         add("manifest-size-lie", b[:2], [pull_step("ns/m:t", [{"blob": 0, "size": len(b[0]) + 1}, {"blob": 1}])], tail=0)
         # --- non-canonical digest spellings (monitor only)
@@ -604,10 +621,14 @@ def cq_store(ids, snap):
     dls = []
     for did in sorted(set(files) | set(recs)):
         r = recs.get(did, {})
-        if sorted(r) != list(range(len(r))) or any(r[i].get("N") != i for i in r):
-            raise Unrenderable("part numbering")
+        order = sorted(r)
+        if order != list(range(len(r))) or any(r[i].get("N") != i for i in r):
+            # records left by a crash between the record writes/removals: Prepare discards them unless they happen to add
+            # up to the size of the -partial file (then run would index them by position: not modelled)
+            if did in files and sum(r[i]["Size"] for i in order) == len(files[did]):
+                raise Unrenderable("part numbering")
         f = "(Some %s)" % cq_bytes(files[did]) if did in files else "None"
-        dls.append("(%s, mkDl %s %s)" % (cq_N(did), f, cq_list([cq_part(r[i]) for i in range(len(r))], "part")))
+        dls.append("(%s, mkDl %s %s)" % (cq_N(did), f, cq_list([cq_part(r[i]) for i in order], "part")))
     mans = []
     for rel, body in sorted(snap["manifests"].items()):
         m = go_manifest(body.encode())
